@@ -701,7 +701,7 @@ theorem loop_specF (hNX : NoFixpoint P) {read : Nat → St → Res Fetched}
     (hs0 : ¬ HeadOn s0 → s0.cache = [] ∧ s0.prov = [])
     (fuel stamp : Nat) (s : St) (v : Nat) (hs : List Nat) (s' : St)
     (hI : InvF P env s) (hst : s.stack = j :: s0.stack) (hE0 : Ext s0 s)
-    (h : executeMaybeIterate P env read j fuel stamp s = .ok (v, hs, s')) :
+    (h : executeMaybeIterate P env read j false fuel stamp s = .ok (v, hs, s')) :
     InvF P env s' ∧ s'.stack = s0.stack ∧ Ext s0 s' ∧ Avail s' j v ∧ s'.iters = s.iters ∧
     (∀ k ∈ hs, k ∈ s0.stack ∧ Reach P env j k) ∧
     ((∃ c ∈ callees env (P.node j).body, c ∈ s.stack) →
@@ -715,7 +715,7 @@ theorem loop_specF (hNX : NoFixpoint P) {read : Nat → St → Res Fetched}
     | ok r =>
       obtain ⟨v1, hs1, s1⟩ := r
       rw [hev] at h
-      simp only at h
+      simp only [Bool.not_false, Bool.true_and] at h
       have hT : ∀ c ∈ callees env (P.node j).body, TopCalls P env s c := by
         intro c hc t ht
         rw [hst] at ht
